@@ -373,8 +373,10 @@ static int btls_init(struct xcm_socket *s, struct xcm_socket *parent)
     if (parent != NULL)
 	btcp_parent = TOBTLS(parent)->btcp_socket;
 
-    if (xcm_tp_socket_init(bts->btcp_socket, btcp_parent) < 0)
+    if (xcm_tp_socket_init(bts->btcp_socket, btcp_parent) < 0) {
+	xcm_tp_socket_destroy(bts->btcp_socket);
 	return -1;
+    }
 
     if (s->type == xcm_socket_type_conn) {
 	bts->tls_client = true;
@@ -382,6 +384,12 @@ static int btls_init(struct xcm_socket *s, struct xcm_socket *parent)
 	bts->conn.state = conn_state_initialized;
 
 	bts->conn.bell_reg_id = xpoll_bell_reg_add(s->xpoll, false);
+
+	if (bts->conn.bell_reg_id < 0) {
+	    UT_PROTECT_ERRNO(xcm_tp_socket_close(bts->btcp_socket));
+	    xcm_tp_socket_destroy(bts->btcp_socket);
+	    return -1;
+	}
 
 	if (parent != NULL)
 	    inherit_tls_conf(s, parent);
